@@ -41,7 +41,7 @@ Definition override_null (o : iopts) (allowNull : bool) (c : schema) : schema :=
     else
       let ts := match s_types c with Some l => l | None => [] end in
       match ts with
-      | [] => c    (* no type restriction: null is admitted already *)
+      | [] => c    (* no type restriction: null is accepted already *)
       | _ => if mem_str null_s ts then c else set_types (Some (null_s :: ts)) c
       end
   else c.
